@@ -88,6 +88,19 @@ Section Model.
     | [] => P
     | (k', J) :: rest => trace_P k' rest (pol_update k k' J P)
     end.
+  (** exactly what the code does: each [update] call sees its own (k0, k1) -- the direction cosines in the
+      local frame of that surface -- and multiplies onto the accumulated matrix *)
+  Fixpoint trace_PP (calls : list (V3 O * V3 O * option (M3 O))) (P : M3 O) : M3 O :=
+    match calls with
+    | [] => P
+    | (k0, k1, J) :: rest => trace_PP rest (pol_update k0 k1 J P)
+    end.
+  (** the calls form a chain when every surface starts from the direction the previous one produced *)
+  Fixpoint chain_calls (k : V3 O) (surfs : list (V3 O * option (M3 O))) : list (V3 O * V3 O * option (M3 O)) :=
+    match surfs with
+    | [] => []
+    | (k', J) :: rest => (k, k', J) :: chain_calls k' rest
+    end.
   Fixpoint last_dir (k : V3 O) (surfs : list (V3 O * option (M3 O))) : V3 O :=
     match surfs with [] => k | (k', _) :: rest => last_dir k' rest end.
 
